@@ -20,11 +20,12 @@ Inductive outcome :=
 Definition sp_is_opt (t : ty) : bool := match t with TOpt _ => true | _ => false end.
 Definition sp_private (n : str) : bool := match n with 95%N :: _ => true | _ => false end.
 
-(* default: the signature default; an Optional parameter without default defaults to None *)
+(* default: the signature default; an Optional parameter without default defaults to None; a dataclass-typed
+   parameter without default stands for its fields, which all have defaults (ty_default) *)
 Definition sp_default (p : param) : option value :=
   match p_default p with
   | Some v => Some v
-  | None => if sp_is_opt (p_ty p) then Some VNone else None
+  | None => if sp_is_opt (p_ty p) then Some VNone else ty_default (p_ty p)
   end.
 (* required iff no default *)
 Definition sp_required (p : param) : bool := match sp_default p with None => true | Some _ => false end.
